@@ -169,7 +169,7 @@ def Proc.steps (cap : Nat) (pr : Proc) : List Step → Proc
 /-- The script with the kill plan's named point made explicit. -/
 def scriptOf (su td : Bool) (t : Test) : List Step :=
   match t.kill with
-  | some { atStep := some i, how := d, .. } => (script su td t).insertIdx i (Step.act (.die d))
+  | some { atStep := some i, how := d, .. } => (script su td t).take i ++ Step.act (.die d) :: (script su td t).drop i
   | _ => script su td t
 
 def planOf (t : Test) : KillPlan := t.kill.getD {}
